@@ -66,8 +66,8 @@ def run(ctx: common.Ctx):
         "an undelivered message at the end of a run counts as a hang (rendezvous sends never complete)",
     ]
     ctx.lean_obligations("PtProofs.C10", THEOREMS)
-    nprog = 500 if ctx.thorough else 90
-    npairs = 3000 if ctx.thorough else 150
+    nprog = 2000 if ctx.thorough else 140
+    npairs = 15000 if ctx.thorough else 200
     rng = random.Random(f"c10:{ctx.seed}")
     # phase 1: the unfaulted programs (a valid program must be accepted)
     base_tasks = []
@@ -90,6 +90,8 @@ def run(ctx: common.Ctx):
             tasks.append(dict(base, faults=[[kind, site, 0]]))
             if kind in ("dup_send", "redirect_send", "redirect_recv", "cycle") and spec["nranks"] > 2:
                 tasks.append(dict(base, faults=[[kind, site, 1]]))
+            if kind == "dup_send":
+                tasks.append(dict(base, faults=[[kind, site, 2]]))    # duplicate built from the original holder
         # targeted pairs, one per message: both ends broken so that no rank sees an orphan locally
         # (only verify_distributed_partition on the root can notice)
         sends, recvs = G.comm_ops(spec)
@@ -121,7 +123,7 @@ def run(ctx: common.Ctx):
     kinds = collections.Counter()
     verdicts = collections.Counter()
     n_single = n_single_dis = n_pair = n_pair_dis = n_valid = n_valid_dis = 0
-    n_through = n_through_bad = 0
+    n_through = n_through_bad = n_valid_comm = 0
     for (t, r), a in zip(live, answers):
         faults = r["faults"]
         label = fault_label(faults)
@@ -140,6 +142,7 @@ def run(ctx: common.Ctx):
         if d["verdict"] == "ok":
             # the model calls the program valid: it must be accepted and must run
             n_valid += 1
+            n_valid_comm += r["stats"]["ncomm"] > 0
             if not all_ok:
                 n_valid_dis += 1
                 i0, x0 = raised[0] if raised else (0, {"stage": "?", "exc": "?", "text": ""})
@@ -210,7 +213,10 @@ def run(ctx: common.Ctx):
                 # the partition silently drops a send / receive of the program: one of the
                 # program's messages is never delivered although every run "succeeds"
                 n_through_bad += 1
-                ctx.violation(f"undiagnosed:{label if len(faults) < 2 else 'pair:' + d['verdict']}:partition-drops-communication",
+                sig = f"undiagnosed:{label if len(faults) < 2 else 'pair:' + d['verdict']}:partition-drops-communication"
+                if d["verdict"] == "DuplicateSendError" and r["patterns"].get("duplicate_send_nested_in_payload"):
+                    sig = "undiagnosed:DuplicateSendError:duplicate-nested-in-payload"
+                ctx.violation(sig,
                               f"the real code returns a partition for the invalid program {prog} (model verdict "
                               f"{d['verdict']}) in which communication operations are missing: {r['comm_count']}",
                               dict(replay, comm_count=r["comm_count"]))
@@ -221,7 +227,14 @@ def run(ctx: common.Ctx):
                 disagree = None
         if disagree:
             # model and real code differ in who raises what, yet nothing got through
-            if not all_ok and not raised:
+            if d["verdict"] == "DuplicateSendError" and r["patterns"].get("duplicate_send_nested_in_payload") \
+                    and not any(x["exc"] == "DuplicateSendError" for _, x in raised):
+                # the duplicate is overlooked (one duplicate sits in the other's payload); some other
+                # diagnostic, or none, is produced instead
+                ctx.violation("undiagnosed:DuplicateSendError:duplicate-nested-in-payload",
+                              f"{prog}: two sends with one (source, destination, tag) are not diagnosed as such: "
+                              f"{[(x['stage'], x['status'], x['exc']) for x in ranks]}", dict(replay, ranks=ranks))
+            elif not all_ok and not raised:
                 ctx.broken.append(f"correspondence:nobody-raised-nobody-returned:{label}")
             elif not all_ok and any(x["exc"] not in DIAG_CLASSES for _, x in raised):
                 i0, x0 = [(i, x) for i, x in raised if x["exc"] not in DIAG_CLASSES][0]
@@ -234,14 +247,20 @@ def run(ctx: common.Ctx):
                 ctx.broken.append(f"correspondence:per-rank-outcome:{label if len(faults) < 2 else 'pair'}:{disagree[:90]}")
         if len(ctx.samples) < 10 and faults and len(ctx.samples) < 10 and (len(kinds) > len(ctx.samples)):
             ctx.sample({"program": prog, "model": a, "real": [(x["stage"], x["status"], x["exc"]) for x in ranks]})
-    ctx.note_batch("valid-programs-accepted", n_valid, n_valid_dis,
+    ctx.note_batch("valid-programs-accepted", n_valid, n_valid_dis, nontrivial=n_valid_comm,
                    how="programs the model calls Valid (unfaulted, or faults that cancel): accepted by find+verify on all ranks")
     ctx.note_batch("single-faults", n_single, n_single_dis, exhaustive=True,
                    how="every fault kind at every communication operation of every program of the set "
                        "(exhaustive over sites; programs are sampled): per-rank outcome == model")
     ctx.note_batch("fault-pairs", n_pair, n_pair_dis, how="seeded pairs of faults")
-    ctx.note_batch("let-through-and-executed", n_through, n_through_bad,
-                   how="partitions the real code returns, run under the schedule explorer")
+    ctx.coverage["let_through_and_executed"] = {
+        "partitions_returned_by_all_ranks": n_through, "failing_under_some_schedule_or_dropping_communication": n_through_bad,
+        "how": "every partition the real code returns (valid or not) is run under the schedule explorer"}
+    ctx.coverage["programs"] = len(live)
+    ctx.coverage["rule"] = ("a case = one (program, fault list); single faults are enumerated over every fault kind "
+                            "and every communication operation of every accepted base program, pairs are the "
+                            "targeted both-ends pairs of every message plus seeded draws; every faulted case is "
+                            "non-trivial (it has at least one communication operation)")
     ctx.coverage["fault_kinds"] = dict(sorted(kinds.items()))
     ctx.coverage["model_verdicts"] = dict(sorted(verdicts.items()))
     ctx.coverage["exhaustive"] = False
